@@ -45,6 +45,8 @@ impl Hash for FieldSelection<'_> {
 impl<'a> FieldSelection<'a> {
     fn new(parent_type: &'a NamedType, field: &'a Node<executable::Field>) -> Self {
         static SHARED_RANDOM: OnceLock<ahash::RandomState> = OnceLock::new();
+        #[cfg(apollo_rs_verif)]
+        let _verif_region = crate::verif::once_region("once:selection::SHARED_RANDOM");
         let hash = SHARED_RANDOM
             .get_or_init(Default::default)
             .hash_one((parent_type, field));
